@@ -58,6 +58,7 @@ def run(ctx):
             pairs += 1
             ctx.ob("R1.2", f"adjoint-pair:({i},{a},{j})", levi(i, a, j) == -levi(j, a, i), "term (i,a,j,+s,fwd) of curl_E pairs with (j,a,i,-s,bwd) of curl_H", levi(j, a, i), -levi(i, a, j), nontrivial=False)
     _metric_rules(ctx)
+    _adjointness_concrete(ctx)
     _padding_rules(ctx)
     _bloch_rules(ctx)
     _wall_rules(ctx)
@@ -65,6 +66,68 @@ def run(ctx):
     _order_rules(ctx)
     ctx.require_count("C01", len(ctx.obligations), 60)
     ctx.assume("non-negative conductivities, positive inverse material parameters and Courant number (documented domains)")
+
+
+# ------------------------------------------------------------- adjointness on a concrete cell
+def _adjointness_concrete(ctx):
+    """<H, curl_E E>_{V_H} == <E, curl_H H>_{V_E} on a small concrete grid with free field and cell-width symbols: the
+    summation-by-parts identity from which the conservation of W = sum V_E eps E^2 + sum V_H mu H^{n+1/2} H^{n-1/2}
+    by the leapfrog follows.  V_E(c) = w_c * d_a * d_b, V_H(c) = d_c * w_a * w_b with w the cell widths and d the dual
+    widths (d_i = (w_i + w_{i-1}) / 2, wrapping on a periodic axis)."""
+    from . import c09
+
+    ix = ctx.index
+    fE, fH = ix.function("fdtdx.core.physics.curl.curl_E"), ix.function("fdtdx.core.physics.curl.curl_H")
+    cases = [
+        ("uniform:all-periodic", (3, 2, 2), (True, True, True), False),
+        ("stretched:all-periodic", (3, 2, 2), (True, True, True), True),
+        ("stretched:x-periodic,yz-truncated", (3, 2, 2), (True, False, False), True),
+        ("stretched:yz-periodic", (2, 3, 2), (False, True, True), True),
+    ]
+    for label, shape, periodic, stretched in cases:
+        widths = [[Rat.atom((f"w{a}", i)) for i in range(shape[a])] for a in range(3)] if stretched else None
+        it, sc, objs, cfg, _ = c09._supercell_scene(ctx, shape, periodic, (0, 0, 0), widths)
+        E, H = c09._sym_arr("E", 3, shape), c09._sym_arr("H", 3, shape)
+        try:
+            Ep = it.call_function("fdtdx.fdtd.update.pad_fields_for_boundaries", E, objs, cfg)
+            Hp = it.call_function("fdtdx.fdtd.update.pad_fields_for_boundaries", H, objs, cfg)
+            cE, _ = it.call(it.closure_of(fE), [cfg, Ep, {}, objs, True], {})
+            cH, _ = it.call(it.closure_of(fH), [cfg, Hp, {}, objs, True], {})
+        except Raised as r:
+            raise AnalysisError(f"curl on the concrete cell raises: {r}")
+        if not (isinstance(cE, NdArr) and isinstance(cH, NdArr) and cE.shape == (3,) + shape and cH.shape == (3,) + shape):
+            raise AnalysisError(f"curl on the concrete cell returns {getattr(cE, 'shape', cE)} / {getattr(cH, 'shape', cH)}")
+
+        def w(a, i):
+            return to_rat(widths[a][i]) if stretched else Rat.atom("res")
+
+        def d(a, i):
+            if i == 0 and not periodic[a]:
+                return w(a, 0)  # below a truncated domain the halo is zero: the weight of that term is immaterial
+            return (w(a, i) + w(a, (i - 1) % shape[a])) / 2
+
+        from ..poly import derivative
+
+        # bilinear forms compared coefficient by coefficient (one small rational form per pair of field entries)
+        coef = {}
+        for c in range(3):
+            o = [a for a in range(3) if a != c]
+            for p in itertools.product(*[range(n) for n in shape]):
+                flat = ((c * shape[0] + p[0]) * shape[1] + p[1]) * shape[2] + p[2]
+                VH = d(c, p[c]) * w(o[0], p[o[0]]) * w(o[1], p[o[1]])
+                VE = w(c, p[c]) * d(o[0], p[o[0]]) * d(o[1], p[o[1]])
+                h_at, e_at = ("H", c) + p, ("E", c) + p
+                ce, ch = to_rat(cE.data[flat]), to_rat(cH.data[flat])
+                for a_ in ce.atoms():
+                    if isinstance(a_, tuple) and a_ and a_[0] == "E":
+                        coef[(h_at, a_)] = coef.get((h_at, a_), Rat.const(0)) + VH * derivative(ce, a_)
+                for a_ in ch.atoms():
+                    if isinstance(a_, tuple) and a_ and a_[0] == "H":
+                        coef[(a_, e_at)] = coef.get((a_, e_at), Rat.const(0)) - VE * derivative(ch, a_)
+        nonzero = [(k, v.fmt()[:160]) for k, v in coef.items() if not v.is_zero()]
+        ok = not nonzero and len(coef) >= 4 * 3 * shape[0] * shape[1] * shape[2] // 2
+        diff = Rat.const(0) if not nonzero else Rat.atom("nonzero")
+        ctx.ob("R1.8", f"curl-adjointness[{label}]{shape}", ok, "sum V_H H . curl_E(E) == sum V_E E . curl_H(H) for all fields and cell widths (primal / dual Yee volumes, dual width wrapping on periodic axes): the two curls are adjoint in the energy inner product, so the lossless leapfrog conserves the discrete energy exactly", nonzero[:2] if nonzero else f"{len(coef)} coefficient pairs cancel", "0")
 
 
 # --------------------------------------------------------------------- metric
